@@ -678,7 +678,18 @@ func (b *kvBox[K, V]) mainProp() string {
 	return "C01"
 }
 
+// Step = Do (the operation on the real object and the reference, return values compared)
+// followed by Content (the cheap observer comparison that runs on every transition).
 func (b *kvBox[K, V]) Step(o Op) *Viol {
+	if v := b.Do(o); v != nil {
+		return v
+	}
+	return b.content()
+}
+
+func (b *kvBox[K, V]) Content() *Viol { return b.content() }
+
+func (b *kvBox[K, V]) Do(o Op) *Viol {
 	kind, k, v := b.resolve(o)
 	n := len(b.ref)
 	switch kind {
@@ -712,7 +723,7 @@ func (b *kvBox[K, V]) Step(o Op) *Viol {
 		b.a.clear()
 		b.ref = nil
 	}
-	return b.content()
+	return nil
 }
 
 func (b *kvBox[K, V]) boundCheck(what string, n, mul int) *Viol {
